@@ -38,6 +38,9 @@ type tncConn struct {
 	mu       sync.Mutex
 	buffer   int
 	nWritten int
+
+	// Remainder of the last received data frame not yet consumed by Read.
+	unread []byte
 }
 
 // TODO: implement
@@ -53,20 +56,20 @@ func (conn *tncConn) Read(p []byte) (int, error) {
 		return 0, nil
 	}
 
-	data, ok := <-conn.dataIn
-	if !ok {
-		return 0, io.EOF
+	// Fetch the next (non-empty) data frame once the previous one is consumed.
+	for len(conn.unread) == 0 {
+		data, ok := <-conn.dataIn
+		if !ok {
+			return 0, io.EOF
+		}
+		conn.unread = data
 	}
 
-	if len(data) > len(p) {
-		panic("too large") // TODO: Handle
-	}
+	// The frame may be larger than p, keep the remainder for the next call.
+	n := copy(p, conn.unread)
+	conn.unread = conn.unread[n:]
 
-	for i, b := range data {
-		p[i] = b
-	}
-
-	return len(data), nil
+	return n, nil
 }
 
 func (conn *tncConn) Write(p []byte) (int, error) {
